@@ -12,6 +12,7 @@ import (
 	"strconv"
 	"strings"
 
+	"github.com/bytedance/gopkg/lang/mcache"
 	"github.com/cloudwego/gopkg/bufiox"
 	"github.com/cloudwego/gopkg/protocol/thrift"
 	"verifharness/lib"
@@ -196,42 +197,77 @@ func runInplace(n int, v Val) string {
 	})
 }
 
+// appendSpares: the spare capacities a destination of an Append* call is given, for an encoding of L bytes: none,
+// one byte short, exactly enough, a little more, much more
+func appendSpares(L int) []int {
+	sp := []int{0}
+	if L > 1 {
+		sp = append(sp, L-1)
+	}
+	return append(sp, L, L+7, 2*L+64)
+}
+
+// runAppend: the destination ALREADY HOLDS `prefix`. The call is made on destinations that differ only in their
+// spare capacity (appendSpares; the spare room is dirty memory, 0xA5, and nothing is assumed about the backing
+// array beyond the result afterwards). Appending means: every result is prefix ++ encoding whatever the capacity, and
+// the caller's own view of the prefix still holds the prefix. When all results agree that one result is printed
+// (always, on code where the destination's capacity is not observable); otherwise the result without spare capacity
+// followed by the first deviating one, marked with its spare capacity.
 func runAppend(prefix []byte, v Val) string {
 	return lib.Guard(func() string {
-		buf := append(make([]byte, 0, len(prefix)), prefix...)
-		p := thrift.Binary
-		switch v.K {
-		case "bool":
-			buf = p.AppendBool(buf, v.B)
-		case "i8":
-			buf = p.AppendByte(buf, int8(v.I))
-		case "i16":
-			buf = p.AppendI16(buf, int16(v.I))
-		case "i32":
-			buf = p.AppendI32(buf, int32(v.I))
-		case "i64":
-			buf = p.AppendI64(buf, v.I)
-		case "double":
-			buf = p.AppendDouble(buf, math.Float64frombits(v.U))
-		case "binary":
-			buf = p.AppendBinary(buf, v.S)
-		case "string":
-			buf = p.AppendString(buf, string(v.S))
-		case "field":
-			buf = p.AppendFieldBegin(buf, tt(v.T), int16(v.I))
-		case "stop":
-			buf = p.AppendFieldStop(buf)
-		case "map":
-			buf = p.AppendMapBegin(buf, tt(v.T), tt(v.T2), v.N)
-		case "list":
-			buf = p.AppendListBegin(buf, tt(v.T), v.N)
-		case "set":
-			buf = p.AppendSetBegin(buf, tt(v.T), v.N)
-		case "msg":
-			buf = p.AppendMessageBegin(buf, string(v.S), thrift.TMessageType(v.MsgTyp), int32(v.I))
+		L := len(refEnc(v))
+		first, out := "", ""
+		for i, spare := range appendSpares(L) {
+			back := bytes.Repeat([]byte{0xA5}, len(prefix)+spare)
+			copy(back, prefix)
+			dst := back[: len(prefix) : len(prefix)+spare]
+			res := lib.Hex(appendOne(dst, v))
+			if !bytes.Equal(back[:len(prefix)], prefix) {
+				res += " prefix-changed"
+			}
+			if i == 0 {
+				first, out = res, "ok "+res
+			} else if res != first && out == "ok "+first {
+				out += fmt.Sprintf(" spare%d:%s", spare, res)
+			}
 		}
-		return "ok " + lib.Hex(buf)
+		return out
 	})
+}
+
+func appendOne(buf []byte, v Val) []byte {
+	p := thrift.Binary
+	switch v.K {
+	case "bool":
+		buf = p.AppendBool(buf, v.B)
+	case "i8":
+		buf = p.AppendByte(buf, int8(v.I))
+	case "i16":
+		buf = p.AppendI16(buf, int16(v.I))
+	case "i32":
+		buf = p.AppendI32(buf, int32(v.I))
+	case "i64":
+		buf = p.AppendI64(buf, v.I)
+	case "double":
+		buf = p.AppendDouble(buf, math.Float64frombits(v.U))
+	case "binary":
+		buf = p.AppendBinary(buf, v.S)
+	case "string":
+		buf = p.AppendString(buf, string(v.S))
+	case "field":
+		buf = p.AppendFieldBegin(buf, tt(v.T), int16(v.I))
+	case "stop":
+		buf = p.AppendFieldStop(buf)
+	case "map":
+		buf = p.AppendMapBegin(buf, tt(v.T), tt(v.T2), v.N)
+	case "list":
+		buf = p.AppendListBegin(buf, tt(v.T), v.N)
+	case "set":
+		buf = p.AppendSetBegin(buf, tt(v.T), v.N)
+	case "msg":
+		buf = p.AppendMessageBegin(buf, string(v.S), thrift.TMessageType(v.MsgTyp), int32(v.I))
+	}
+	return buf
 }
 
 func runLen(v Val) string {
@@ -369,6 +405,26 @@ func (s *recSink) Write(p []byte) (int, error) {
 	return len(p), nil
 }
 
+type brokenSink struct{}
+
+func (brokenSink) Write(p []byte) (int, error) { return 0, errors.New("wire harness: broken pipe") }
+
+// poisonWriterPool: the previous user of the pooled BufferWriter objects hit a write error (its sink failed at
+// Flush, every later Write* then returned the underlying writer's sticky error) and recycled its objects. A
+// BufferWriter taken from the pool afterwards must behave exactly like a new one (C01: every stream writer emits
+// the encoding; C14 proves it for the model as recycled_behaves_as_new). Invisible on code where that holds.
+func poisonWriterPool() {
+	for i := 0; i < 2; i++ {
+		dw := bufiox.NewDefaultWriter(brokenSink{})
+		bw := thrift.NewBufferWriter(dw)
+		_ = bw.WriteI32(7)
+		_ = dw.Flush()
+		_ = bw.WriteI32(8)
+		_ = bw.WriteFieldStop()
+		bw.Recycle()
+	}
+}
+
 // runSeq: a sequence of messages through ONE reused writer, Flush after each; the flushed chunks.
 // setup: d (DefaultWriter over a recording sink) | b<cap> (BytesWriter over a buffer of that capacity)
 func runSeq(setup string, vs []Val) string {
@@ -384,6 +440,7 @@ func runSeq(setup string, vs []Val) string {
 		} else {
 			w = bufiox.NewDefaultWriter(sink)
 		}
+		poisonWriterPool()
 		bw := thrift.NewBufferWriter(w)
 		out := "ok"
 		for _, v := range vs {
@@ -422,6 +479,7 @@ func runMulti(setup string, vs []Val) string {
 		} else {
 			w = bufiox.NewDefaultWriter(sink)
 		}
+		poisonWriterPool()
 		bw := thrift.NewBufferWriter(w)
 		for _, v := range vs {
 			if err := streamWrite(bw, v); err != nil {
@@ -487,7 +545,7 @@ func genMulti(r *lib.Rng, n int) {
 // has been handed out must not change when the reader reuses its buffer
 func runTwo(b []byte, src string) string {
 	return lib.Guard(func() string {
-		rd := mkReader(b, src)
+		rd, under := mkReaderU(b, src)
 		r := thrift.NewBufferReader(rd)
 		s1, err := r.ReadString()
 		if err != nil {
@@ -500,7 +558,12 @@ func runTwo(b []byte, src string) string {
 			return "err2 " + wireErrStr(err)
 		}
 		h2 := lib.Hex([]byte(s2))
-		return fmt.Sprintf("ok %s %s %s %d", h1, h2, lib.Hex([]byte(s1)), r.Readn())
+		n := r.Readn()
+		// the caller is done with the data: Release, the slice behind a bytes reader reused, the pool's buffers reused
+		rd.Release(nil)
+		scribble(under, 0x5A)
+		coTenant()
+		return fmt.Sprintf("ok %s %s %s %d", h1, h2, lib.Hex([]byte(s1)), n)
 	})
 }
 
@@ -543,13 +606,15 @@ func genTwo(r *lib.Rng, n int) {
 // like a fresh reader — exact values and exact Readn — and the string handed out by the first use must not change.
 func runRecycle(b1, b2 []byte, src2 string) string {
 	return lib.Guard(func() string {
-		r := thrift.NewBufferReader(bufiox.NewBytesReader(append([]byte(nil), b1...)))
+		in1 := append([]byte(nil), b1...)
+		r := thrift.NewBufferReader(bufiox.NewBytesReader(in1))
 		s1, err := r.ReadString()
 		if err != nil {
 			return "err1 " + wireErrStr(err)
 		}
 		h1 := lib.Hex([]byte(s1)) // a copy of what was returned, taken now
 		r.Recycle()
+		scribble(in1, 0x5A) // the first use is over: its input buffer is reused
 		rd2 := mkReader(b2, src2)
 		r2 := thrift.NewBufferReader(rd2)
 		name, typ, seq, err := r2.ReadMessageBegin()
@@ -661,80 +726,159 @@ func boolTok(b bool) string {
 	return "bool 0"
 }
 
+// bufReadOne: one Binary.Read<kind>(b) call; the returned function renders the value from the Go values that were
+// returned (see streamReadOne). nil: unknown kind.
+func bufReadOne(kind string, b []byte) (func() string, int, error) {
+	p := thrift.Binary
+	switch kind {
+	case "bool":
+		v, l, err := p.ReadBool(b)
+		return func() string { return boolTok(v) }, l, err
+	case "i8":
+		v, l, err := p.ReadByte(b)
+		return func() string { return fmt.Sprintf("i8 %d", v) }, l, err
+	case "i16":
+		v, l, err := p.ReadI16(b)
+		return func() string { return fmt.Sprintf("i16 %d", v) }, l, err
+	case "i32":
+		v, l, err := p.ReadI32(b)
+		return func() string { return fmt.Sprintf("i32 %d", v) }, l, err
+	case "i64":
+		v, l, err := p.ReadI64(b)
+		return func() string { return fmt.Sprintf("i64 %d", v) }, l, err
+	case "double":
+		v, l, err := p.ReadDouble(b)
+		return func() string { return fmt.Sprintf("double %d", math.Float64bits(v)) }, l, err
+	case "binary":
+		v, l, err := p.ReadBinary(b)
+		return func() string { return "binary " + lib.Hex(v) }, l, err
+	case "string":
+		v, l, err := p.ReadString(b)
+		return func() string { return "string " + lib.Hex([]byte(v)) }, l, err
+	case "field":
+		t, id, l, err := p.ReadFieldBegin(b)
+		return func() string { return fieldToks(t, id) }, l, err
+	case "map":
+		kt, vt, n, l, err := p.ReadMapBegin(b)
+		return func() string { return fmt.Sprintf("map %d %d %d", uint8(kt), uint8(vt), n) }, l, err
+	case "list":
+		et, n, l, err := p.ReadListBegin(b)
+		return func() string { return fmt.Sprintf("list %d %d", uint8(et), n) }, l, err
+	case "set":
+		et, n, l, err := p.ReadSetBegin(b)
+		return func() string { return fmt.Sprintf("set %d %d", uint8(et), n) }, l, err
+	case "msg":
+		name, t, seq, l, err := p.ReadMessageBegin(b)
+		return func() string { return fmt.Sprintf("msg %s %d %d", lib.Hex([]byte(name)), t, seq) }, l, err
+	}
+	return nil, 0, nil
+}
+
+func bufResStr(render func() string, l int, err error) string {
+	if err != nil {
+		return fmt.Sprintf("err %s %d", lib.ErrStr(err), l)
+	}
+	return fmt.Sprintf("ok %s %d", render(), l)
+}
+
 func runReadBuf(kind string, in []byte) string {
 	return lib.Guard(func() string {
 		b := append(make([]byte, 0, len(in)), in...)
-		p := thrift.Binary
-		var val string
-		var l int
-		var err error
-		switch kind {
-		case "bool":
-			var v bool
-			v, l, err = p.ReadBool(b)
-			val = boolTok(v)
-		case "i8":
-			var v int8
-			v, l, err = p.ReadByte(b)
-			val = fmt.Sprintf("i8 %d", v)
-		case "i16":
-			var v int16
-			v, l, err = p.ReadI16(b)
-			val = fmt.Sprintf("i16 %d", v)
-		case "i32":
-			var v int32
-			v, l, err = p.ReadI32(b)
-			val = fmt.Sprintf("i32 %d", v)
-		case "i64":
-			var v int64
-			v, l, err = p.ReadI64(b)
-			val = fmt.Sprintf("i64 %d", v)
-		case "double":
-			var v float64
-			v, l, err = p.ReadDouble(b)
-			val = fmt.Sprintf("double %d", math.Float64bits(v))
-		case "binary":
-			var v []byte
-			v, l, err = p.ReadBinary(b)
-			val = "binary " + lib.Hex(v)
-		case "string":
-			var v string
-			v, l, err = p.ReadString(b)
-			val = "string " + lib.Hex([]byte(v))
-		case "field":
-			var t thrift.TType
-			var id int16
-			t, id, l, err = p.ReadFieldBegin(b)
-			val = fieldToks(t, id)
-		case "map":
-			var kt, vt thrift.TType
-			var n int
-			kt, vt, n, l, err = p.ReadMapBegin(b)
-			val = fmt.Sprintf("map %d %d %d", uint8(kt), uint8(vt), n)
-		case "list":
-			var et thrift.TType
-			var n int
-			et, n, l, err = p.ReadListBegin(b)
-			val = fmt.Sprintf("list %d %d", uint8(et), n)
-		case "set":
-			var et thrift.TType
-			var n int
-			et, n, l, err = p.ReadSetBegin(b)
-			val = fmt.Sprintf("set %d %d", uint8(et), n)
-		case "msg":
-			var name string
-			var t thrift.TMessageType
-			var seq int32
-			name, t, seq, l, err = p.ReadMessageBegin(b)
-			val = fmt.Sprintf("msg %s %d %d", lib.Hex([]byte(name)), t, seq)
-		default:
+		render, l, err := bufReadOne(kind, b)
+		if render == nil {
 			return "bad-kind"
 		}
-		if err != nil {
-			return fmt.Sprintf("err %s %d", lib.ErrStr(err), l)
-		}
-		return fmt.Sprintf("ok %s %d", val, l)
+		return bufResStr(render, l, err)
 	})
+}
+
+// runReadBufLate: Binary.Read<kind> on the caller's buffer, the result rendered at once; then the caller reuses its
+// buffer (every byte overwritten, spare capacity included) and the result is rendered again from the Go values it
+// still holds. Decoded values are independent copies (C16), with the span cache off (span=false) and on.
+//
+//	=> <r-buf result> late <r-buf result>
+func runReadBufLate(span bool, kind string, in []byte) string {
+	return lib.Guard(func() string {
+		if span {
+			thrift.SetSpanCache(true)
+			defer thrift.SetSpanCache(false)
+		}
+		b := append(make([]byte, 0, len(in)+3), in...)
+		render, l, err := bufReadOne(kind, b)
+		if render == nil {
+			return "bad-kind"
+		}
+		early := bufResStr(render, l, err)
+		scribble(b[:cap(b)], 0x5A)
+		return early + " late " + bufResStr(render, l, err)
+	})
+}
+
+func spanTok(span bool) string {
+	if span {
+		return "s1"
+	}
+	return "s0"
+}
+
+func opReadBufLate(span bool, kind string, b []byte) {
+	res := runReadBufLate(span, kind, b)
+	em.Count("r-buf-late:" + spanTok(span) + ":" + kind + ":" + firstTok(res))
+	em.Line(res, "wire", "r-buf-late", spanTok(span), kind, lib.Hex(b))
+}
+
+// runUnmarshalLate: UnmarshalFastMsg, rendered at once; the receive buffer is overwritten; rendered again (method name,
+// the text of a returned ApplicationException, the text decoded into the caller's struct)
+func runUnmarshalLate(span bool, in []byte) string {
+	return lib.Guard(func() string {
+		if span {
+			thrift.SetSpanCache(true)
+			defer thrift.SetSpanCache(false)
+		}
+		b := append(make([]byte, 0, len(in)+3), in...)
+		render := unmarshalRender(b)
+		early := render()
+		scribble(b[:cap(b)], 0x5A)
+		return early + " late " + render()
+	})
+}
+
+func opUnmarshalLate(span bool, b []byte) {
+	res := runUnmarshalLate(span, b)
+	em.Count("unmarshal-late:" + spanTok(span) + ":" + firstTok(res))
+	em.Line(res, "msg", "unmarshal-late", spanTok(span), lib.Hex(b))
+}
+
+// genBufLate: every buffer reader whose result carries pointer content (string, binary, message name; scalars and
+// headers now and then), value lengths across the allocator's size classes, trailing bytes, cut inputs; whole
+// messages (CALL/REPLY/EXCEPTION/ONEWAY with an exception payload) through UnmarshalFastMsg
+func genBufLate(r *lib.Rng, n int) {
+	lens := []int{0, 1, 5, 60, 127, 128, 129, 255, 256, 1000, 4096, 70000}
+	for i := 0; i < n; i++ {
+		L := lens[i%len(lens)]
+		if i >= 3*len(lens) {
+			L = r.Pick(r.Intn(8), r.Intn(64), r.Intn(600), r.Intn(5000))
+		}
+		k := []string{"string", "binary", "msg"}[(i/len(lens))%3]
+		v := Val{K: k, S: content(r, L), MsgTyp: int32(r.Pick(1, 2, 3, 4)), I: int64(int32(r.U64()))}
+		in := append(refEnc(v), r.Bytes(r.Pick(0, 0, 1, 9))...)
+		span := i%4 == 3
+		opReadBufLate(span, k, in)
+		if i%5 == 0 {
+			opReadBufLate(span, k, in[:r.Intn(len(in))])
+			sc := Val{K: pickS(r, "i32", "i64", "double", "field", "map", "list"), T: 11, T2: 8, I: int64(int16(r.U64())), U: r.U64(), N: r.Intn(1 << 20)}
+			opReadBufLate(span, sc.K, refEnc(sc))
+		}
+		m := content(r, r.Pick(1, 4, 16, 40, 300, L%5000+1))
+		ex := thrift.NewApplicationException(int32(r.Intn(12)), string(content(r, r.Pick(0, 1, 12, 200, L%5000))))
+		msg, err := thrift.MarshalFastMsg(string(m), thrift.TMessageType(r.Pick(1, 2, 3, 3, 4)), int32(r.U64()), ex)
+		if err == nil {
+			opUnmarshalLate(span, msg)
+			if i%5 == 0 {
+				opUnmarshalLate(span, msg[:r.Intn(len(msg))])
+			}
+		}
+	}
 }
 
 // errWrapPE: injected source error number 9 — a transport error that WRAPS a protocol exception
@@ -789,6 +933,13 @@ func wireErrStr(err error) string {
 }
 
 func mkReader(b []byte, src string) bufiox.Reader {
+	rd, _ := mkReaderU(b, src)
+	return rd
+}
+
+// mkReaderU: the reader and, for a bytes reader, the caller's slice behind it (full capacity) — the memory its owner
+// may reuse once the data has been decoded
+func mkReaderU(b []byte, src string) (bufiox.Reader, []byte) {
 	if src[0] == 'b' {
 		c, _ := strconv.Atoi(src[1:])
 		if c < len(b) {
@@ -796,97 +947,303 @@ func mkReader(b []byte, src string) bufiox.Reader {
 		}
 		buf := make([]byte, len(b), c)
 		copy(buf, b)
-		return bufiox.NewBytesReader(buf)
+		return bufiox.NewBytesReader(buf), buf[:c]
 	}
-	return bufiox.NewDefaultReader(&wireSource{Stream: b, Script: lib.ParseScript(src)})
+	return bufiox.NewDefaultReader(&wireSource{Stream: b, Script: lib.ParseScript(src)}), nil
+}
+
+func scribble(b []byte, x byte) {
+	for i := range b {
+		b[i] = x
+	}
+}
+
+// coTenant: another user of the shared buffer pool (mcache) takes buffers of every size class a stream reader's
+// buffer can come from, overwrites them completely and gives them back. A buffer the reader has released is
+// overwritten that way; memory the reader (or a value it handed out) still owns is never touched on correct code.
+func coTenant() {
+	var held [][]byte
+	for i := 6; i <= 17; i++ {
+		for k := 0; k < 2; k++ {
+			b := mcache.Malloc(1 << uint(i))
+			scribble(b[:cap(b)], 0xDE)
+			held = append(held, b)
+		}
+	}
+	for _, b := range held {
+		mcache.Free(b)
+	}
+}
+
+// streamReadOne: one BufferReader.Read<kind>() call. The returned function renders the value FROM THE GO VALUES
+// THAT WERE RETURNED (string, []byte and the message name keep their pointer content), so calling it later shows
+// what the caller holds then. nil: unknown kind.
+func streamReadOne(r *thrift.BufferReader, kind string) (func() string, error) {
+	switch kind {
+	case "bool":
+		v, err := r.ReadBool()
+		return func() string { return boolTok(v) }, err
+	case "i8":
+		v, err := r.ReadByte()
+		return func() string { return fmt.Sprintf("i8 %d", v) }, err
+	case "i16":
+		v, err := r.ReadI16()
+		return func() string { return fmt.Sprintf("i16 %d", v) }, err
+	case "i32":
+		v, err := r.ReadI32()
+		return func() string { return fmt.Sprintf("i32 %d", v) }, err
+	case "i64":
+		v, err := r.ReadI64()
+		return func() string { return fmt.Sprintf("i64 %d", v) }, err
+	case "double":
+		v, err := r.ReadDouble()
+		return func() string { return fmt.Sprintf("double %d", math.Float64bits(v)) }, err
+	case "binary":
+		v, err := r.ReadBinary()
+		return func() string { return "binary " + lib.Hex(v) }, err
+	case "string":
+		v, err := r.ReadString()
+		return func() string { return "string " + lib.Hex([]byte(v)) }, err
+	case "field":
+		t, id, err := r.ReadFieldBegin()
+		return func() string { return fieldToks(t, id) }, err
+	case "map":
+		kt, vt, n, err := r.ReadMapBegin()
+		return func() string { return fmt.Sprintf("map %d %d %d", uint8(kt), uint8(vt), n) }, err
+	case "list":
+		et, n, err := r.ReadListBegin()
+		return func() string { return fmt.Sprintf("list %d %d", uint8(et), n) }, err
+	case "set":
+		et, n, err := r.ReadSetBegin()
+		return func() string { return fmt.Sprintf("set %d %d", uint8(et), n) }, err
+	case "msg":
+		name, t, seq, err := r.ReadMessageBegin()
+		return func() string { return fmt.Sprintf("msg %s %d %d", lib.Hex([]byte(name)), t, seq) }, err
+	}
+	return nil, nil
 }
 
 func runReadStream(kind string, b []byte, src string) string {
 	return lib.Guard(func() string {
 		r := thrift.NewBufferReader(mkReader(b, src))
-		var val string
-		var err error
-		switch kind {
-		case "bool":
-			var v bool
-			v, err = r.ReadBool()
-			val = boolTok(v)
-		case "i8":
-			var v int8
-			v, err = r.ReadByte()
-			val = fmt.Sprintf("i8 %d", v)
-		case "i16":
-			var v int16
-			v, err = r.ReadI16()
-			val = fmt.Sprintf("i16 %d", v)
-		case "i32":
-			var v int32
-			v, err = r.ReadI32()
-			val = fmt.Sprintf("i32 %d", v)
-		case "i64":
-			var v int64
-			v, err = r.ReadI64()
-			val = fmt.Sprintf("i64 %d", v)
-		case "double":
-			var v float64
-			v, err = r.ReadDouble()
-			val = fmt.Sprintf("double %d", math.Float64bits(v))
-		case "binary":
-			var v []byte
-			v, err = r.ReadBinary()
-			val = "binary " + lib.Hex(v)
-		case "string":
-			var v string
-			v, err = r.ReadString()
-			val = "string " + lib.Hex([]byte(v))
-		case "field":
-			var t thrift.TType
-			var id int16
-			t, id, err = r.ReadFieldBegin()
-			val = fieldToks(t, id)
-		case "map":
-			var kt, vt thrift.TType
-			var n int
-			kt, vt, n, err = r.ReadMapBegin()
-			val = fmt.Sprintf("map %d %d %d", uint8(kt), uint8(vt), n)
-		case "list":
-			var et thrift.TType
-			var n int
-			et, n, err = r.ReadListBegin()
-			val = fmt.Sprintf("list %d %d", uint8(et), n)
-		case "set":
-			var et thrift.TType
-			var n int
-			et, n, err = r.ReadSetBegin()
-			val = fmt.Sprintf("set %d %d", uint8(et), n)
-		case "msg":
-			var name string
-			var t thrift.TMessageType
-			var seq int32
-			name, t, seq, err = r.ReadMessageBegin()
-			val = fmt.Sprintf("msg %s %d %d", lib.Hex([]byte(name)), t, seq)
-		default:
+		render, err := streamReadOne(r, kind)
+		if render == nil {
 			return "bad-kind"
 		}
 		if err != nil {
 			return "err " + wireErrStr(err)
 		}
-		return fmt.Sprintf("ok %s %d", val, r.Readn())
+		return fmt.Sprintf("ok %s %d", render(), r.Readn())
 	})
 }
 
-func unmarshalStr(b []byte) string {
+// runHist: a history on ONE stream reader: Read<kind> for every kind of the list; after read i, when mask[i] is '1',
+// the reader is Released (what has been decoded so far is done with), the owner of a bytes reader's slice overwrites
+// the consumed part and a co-tenant of the buffer pool overwrites whatever the reader gave back. At the end: Release,
+// the whole input overwritten, co-tenant again. Every value is rendered when it is returned (`early`) and once more
+// at the very end from the Go values the caller still holds (`late`): values handed out are independent copies (C16),
+// so on correct code both lists are equal.
+//
+//	=> ok <Readn before the last Release> <v1> / <v2> … late <v1> / <v2> … | err<i> <e> (read i failed, 1-based)
+func runHist(kinds []string, mask string, b []byte, src string) string {
+	return lib.Guard(func() string {
+		if len(mask) != len(kinds) {
+			return "bad-mask"
+		}
+		rd, under := mkReaderU(b, src)
+		r := thrift.NewBufferReader(rd)
+		var early []string
+		var renders []func() string
+		consumed := 0
+		for i, k := range kinds {
+			render, err := streamReadOne(r, k)
+			if render == nil {
+				return "bad-kind"
+			}
+			if err != nil {
+				return fmt.Sprintf("err%d %s", i+1, wireErrStr(err))
+			}
+			early = append(early, render())
+			renders = append(renders, render)
+			if mask[i] == '1' {
+				consumed += int(r.Readn())
+				rd.Release(nil)
+				if consumed <= len(under) {
+					scribble(under[:consumed], 0x5A)
+				}
+				coTenant()
+			}
+		}
+		n := r.Readn()
+		rd.Release(nil)
+		scribble(under, 0x5A)
+		coTenant()
+		late := make([]string, len(renders))
+		for i, f := range renders {
+			late[i] = f()
+		}
+		return fmt.Sprintf("ok %d %s late %s", n, strings.Join(early, " / "), strings.Join(late, " / "))
+	})
+}
+
+// histAllocOK: hostile declared sizes never reach the allocating readers (also on replayed / shrunk lines)
+func histAllocOK(kinds []string, b []byte) bool {
+	off := 0
+	for _, k := range kinds {
+		if off > len(b) {
+			break
+		}
+		if declared(k, b[off:]) > allocCap {
+			return false
+		}
+		off += encLenAt(k, b[off:])
+	}
+	return true
+}
+
+func opHist(kinds []string, mask string, b []byte, src string) {
+	if !histAllocOK(kinds, b) {
+		em.Count("guard:alloc-capped")
+		return
+	}
+	res := runHist(kinds, mask, b, src)
+	em.Count("r-hist:" + firstTok(res))
+	em.Line(res, "wire", "r-hist", strings.Join(kinds, ","), mask, lib.Hex(b), src)
+}
+
+// encLenAt: the length of the encoding of kind k that starts b (harness arithmetic for the allocation guard only)
+func encLenAt(k string, b []byte) int {
+	u32 := func(off int) int {
+		if len(b) < off+4 {
+			return 0
+		}
+		n := binary.BigEndian.Uint32(b[off:])
+		if n >= 1<<31 {
+			return 0
+		}
+		return int(n)
+	}
+	switch k {
+	case "bool", "i8":
+		return 1
+	case "i16":
+		return 2
+	case "i32":
+		return 4
+	case "i64", "double":
+		return 8
+	case "binary", "string":
+		return 4 + u32(0)
+	case "field":
+		if len(b) > 0 && b[0] == 0 {
+			return 1
+		}
+		return 3
+	case "map":
+		return 6
+	case "list", "set":
+		return 5
+	case "msg":
+		return 12 + u32(4)
+	}
+	return 0
+}
+
+// histMsg: one well-formed message of a pipelined stream: header, fields with pointer-carrying and scalar values, stop
+func histMsg(r *lib.Rng, nameLen int) (kinds []string, b []byte) {
+	add := func(v Val) {
+		kinds = append(kinds, v.ReadKind())
+		b = append(b, refEnc(v)...)
+	}
+	add(Val{K: "msg", S: content(r, nameLen), MsgTyp: int32(r.Pick(1, 2, 3, 4)), I: int64(int32(r.U64()))})
+	for f := r.Pick(0, 1, 1, 2, 3); f > 0; f-- {
+		switch r.Intn(5) {
+		case 0:
+			add(Val{K: "field", T: 8, I: int64(r.Range(1, 300))})
+			add(Val{K: "i32", I: int64(int32(r.U64()))})
+		case 1:
+			add(Val{K: "field", T: 10, I: int64(r.Range(1, 300))})
+			add(Val{K: "i64", I: int64(r.U64())})
+		default:
+			add(Val{K: "field", T: 11, I: int64(r.Range(1, 300))})
+			add(Val{K: pickS(r, "string", "binary"), S: content(r, r.Pick(0, 1, 5, 16, 40, 200, r.Intn(600), len(b)))})
+		}
+	}
+	add(Val{K: "stop"})
+	return
+}
+
+// genHist: 1–3 pipelined messages on one stream reader. Release after every message (a server loop), after every
+// read, at random places, or only at the end; sources: everything buffered by the first read (so that Release
+// compacts the following message over the consumed one), a bytes reader (its slice is overwritten afterwards),
+// benign and hostile fragmentations; now and then a name long enough to make the reader's buffer grow, and cut streams.
+func genHist(r *lib.Rng, n int) {
+	for i := 0; i < n; i++ {
+		var kinds []string
+		var b []byte
+		var ends []int
+		for m := r.Pick(1, 2, 2, 3); m > 0; m-- {
+			nameLen := r.Pick(1, 4, 7, 12, 16, 40, 200, r.Intn(600)+1)
+			if r.Chance(1, 25) {
+				nameLen = r.Pick(4085, 4096, 5000, 8180, 9000)
+			}
+			ks, mb := histMsg(r, nameLen)
+			kinds, b = append(kinds, ks...), append(b, mb...)
+			ends = append(ends, len(kinds)-1)
+		}
+		b = append(b, r.Bytes(r.Pick(0, 0, 3))...)
+		mask := []byte(strings.Repeat("0", len(kinds)))
+		switch r.Intn(5) {
+		case 0, 1: // after every message
+			for _, e := range ends {
+				mask[e] = '1'
+			}
+		case 2: // after every read
+			mask = []byte(strings.Repeat("1", len(kinds)))
+		case 3:
+			for j := range mask {
+				if r.Chance(1, 3) {
+					mask[j] = '1'
+				}
+			}
+		}
+		ms := string(mask)
+		opHist(kinds, ms, b, lib.Script{{K: 1 << 20, Err: -1}, {K: 1 << 20, Err: -1}}.String())
+		opHist(kinds, ms, b, fmt.Sprintf("b%d", len(b)+r.Pick(0, 0, 7)))
+		opHist(kinds, ms, b, scriptFor(r, len(b), true).String())
+		if i%2 == 0 {
+			opHist(kinds, ms, b, scriptFor(r, len(b), false).String())
+		}
+		if i%8 == 0 {
+			cut := r.Intn(len(b))
+			opHist(kinds, ms, b[:cut], pickS(r, fmt.Sprintf("b%d", cut+1), scriptFor(r, cut, true).String()))
+		}
+		if i%6 == 0 { // single reads of every pointer-carrying kind (and a scalar), then the input is reused
+			v := Val{K: pickS(r, "string", "binary", "msg", "msg", "i64"), S: content(r, r.Pick(0, 1, 5, 60, 128, 1000, 4096)), MsgTyp: 1, I: 7}
+			in := append(refEnc(v), r.Bytes(r.Pick(0, 2))...)
+			opHist([]string{v.K}, pickS(r, "0", "1"), in, fmt.Sprintf("b%d", len(in)+r.Pick(0, 5)))
+			opHist([]string{v.K}, pickS(r, "0", "1"), in, scriptFor(r, len(in), true).String())
+		}
+	}
+}
+
+func unmarshalStr(b []byte) string { return unmarshalRender(b)() }
+
+// unmarshalRender: UnmarshalFastMsg(b, tgt); the returned function renders the result from the Go values returned
+func unmarshalRender(b []byte) func() string {
 	tgt := thrift.NewApplicationException(777, "unt")
 	method, seq, err := thrift.UnmarshalFastMsg(b, tgt)
-	tg := fmt.Sprintf("tgt %d %s", tgt.TypeId(), lib.Hex([]byte(tgt.Msg())))
-	mh := lib.Hex([]byte(method))
-	if err == nil {
-		return fmt.Sprintf("ok %s %d %s", mh, seq, tg)
+	return func() string {
+		tg := fmt.Sprintf("tgt %d %s", tgt.TypeId(), lib.Hex([]byte(tgt.Msg())))
+		mh := lib.Hex([]byte(method))
+		if err == nil {
+			return fmt.Sprintf("ok %s %d %s", mh, seq, tg)
+		}
+		if ae, ok := err.(*thrift.ApplicationException); ok {
+			return fmt.Sprintf("appex %s %d %d %s %s", mh, seq, ae.TypeId(), lib.Hex([]byte(ae.Msg())), tg)
+		}
+		return fmt.Sprintf("err %s %s %d %s", lib.ErrStr(err), mh, seq, tg)
 	}
-	if ae, ok := err.(*thrift.ApplicationException); ok {
-		return fmt.Sprintf("appex %s %d %d %s %s", mh, seq, ae.TypeId(), lib.Hex([]byte(ae.Msg())), tg)
-	}
-	return fmt.Sprintf("err %s %s %d %s", lib.ErrStr(err), mh, seq, tg)
 }
 
 func runMsgRT(method []byte, typ, seq, et int32, emsg []byte) string {
@@ -1704,6 +2061,14 @@ func replay(lines [][]string) {
 			}
 		case f[0] == "wire" && f[1] == "r-two" && len(f) == 4:
 			em.Line(runTwo(lib.UnHex(f[2]), f[3]), f...)
+		case f[0] == "wire" && f[1] == "r-hist" && len(f) == 6:
+			if ks, b := strings.Split(f[2], ","), lib.UnHex(f[4]); histAllocOK(ks, b) {
+				em.Line(runHist(ks, f[3], b, f[5]), f...)
+			}
+		case f[0] == "wire" && f[1] == "r-buf-late" && len(f) == 5:
+			em.Line(runReadBufLate(f[2] == "s1", f[3], lib.UnHex(f[4])), f...)
+		case f[0] == "msg" && f[1] == "unmarshal-late" && len(f) == 4:
+			em.Line(runUnmarshalLate(f[2] == "s1", lib.UnHex(f[3])), f...)
 		case f[0] == "wire" && f[1] == "r-recycle" && len(f) == 5:
 			em.Line(runRecycle(lib.UnHex(f[2]), lib.UnHex(f[3]), f[4]), f...)
 		case f[0] == "wire" && (f[1] == "w-seq" || f[1] == "w-multi"):
@@ -1771,6 +2136,8 @@ func main() {
 		}
 		genTwo(rr, k)
 		genRecycle(rr, k)
+		genHist(rr, k/2)
+		genBufLate(rr, k/4)
 	}
 	em.Close(o.Stats)
 }
